@@ -1220,13 +1220,16 @@ fn format_initializer_inner(
         ast::Initializer::Expression(expr) => format_list_expression(expr, output, context)?,
         ast::Initializer::Aggregate(exprs) => {
             output.push_str("{ ");
-            let (head, tail) = exprs.split_first().unwrap();
-            format_initializer_inner(head, output, context)?;
-            for expr in tail {
-                output.push_str(", ");
-                format_initializer_inner(expr, output, context)?;
+            // An aggregate for a type with no members has no elements
+            if let Some((head, tail)) = exprs.split_first() {
+                format_initializer_inner(head, output, context)?;
+                for expr in tail {
+                    output.push_str(", ");
+                    format_initializer_inner(expr, output, context)?;
+                }
+                output.push(' ');
             }
-            output.push_str(" }");
+            output.push('}');
         }
         ast::Initializer::StaticSampler(_) => {
             if context.target == Target::Rssl {
